@@ -34,7 +34,7 @@ def _l3_partition(st: int, L: int, b: int, nb: int, a0: int, a1: int, b0: int, b
 def _l4_windows(st: int, L: int, b: int, nb: int, a0: int, a1: int, b0: int, b1: int, F: int) -> bool:
     """
     pre: 0 <= st <= 2
-    pre: 1 <= L <= 8
+    pre: 1 <= L <= 12
     pre: 1 <= b <= 9
     pre: 0 <= nb <= 2
     pre: -1 <= a0 < a1 <= 12
@@ -61,10 +61,10 @@ _split = lambda Ls, nbs: [dict(id='L%d_nb%d' % (L, nb), pre=['L == %d' % L, 'nb 
 LEMMAS = [
     dict(name='L1_fill_range', fn='_l1_fill', engine='E1', timeout=_T, replay='replay.C17:replay'),
     dict(name='L3_partition', fn='_l3_partition', engine='E1', timeout=_T, replay='replay.C17:replay',
-         cases={'quick': _split((1, 2, 3, 4, 5), (0, 1)) + _split((2, 3, 4), (2,)),
+         cases={'quick': _split((1, 2, 3, 4, 5), (0, 1)) + _split((6, 7, 8), (0,)) + _split((2, 3, 4), (2,)),
                 'thorough': _split((1, 2, 3, 4, 5, 6, 7, 8), (0, 1, 2))}),
     dict(name='L4_fetch_windows', fn='_l4_windows', engine='E1', timeout=_T, replay='replay.C17:replay',
-         cases={'quick': _split((1, 2, 3, 4, 5), (0, 1)) + _split((3, 4), (2,)),
+         cases={'quick': _split((1, 2, 3, 4, 5), (0, 1)) + _split((6, 7, 8, 9, 10, 11, 12), (0,)) + _split((3, 4), (2,)),
                 'thorough': _split((1, 2, 3, 4, 5, 6, 7, 8), (0, 1, 2))}),
     dict(name='L6_bp_chunked', fn='_l6_chunked', engine='E1', timeout=_T, replay='replay.C17:replay'),
 ]
@@ -72,7 +72,7 @@ LEMMAS = [
 PROPERTY = dict(
     functions=['bamBinCounts.fill_range', 'bamBinCounts.trim_rangelist', 'bamBinCounts.merge_overlapping_ranges/_merge_overlapping_ranges/range_contains_overlap',
                'bamBinCounts.blacklisted_binning', 'utils.binning.bp_chunked'],
-    bounds={'quick': dict(region_start='0..2', region_length='1..5 (2 blacklist intervals: 2..4)', bin_size='1..9', blacklist='<=2 intervals with ends in -1..12, any overlap/order',
+    bounds={'quick': dict(region_start='0..2', region_length='1..5 with <=1 blacklist interval, 2..4 with 2, 6..8 (fetch windows: 6..12) without blacklist', bin_size='1..9', blacklist='<=2 intervals with ends in -1..12, any overlap/order',
                           fragment_size='unbounded >= 0', fill_range='start unbounded, span<=8, step<=9', bp_chunked='<=4 tasks, unbounded sizes'),
             'thorough': dict(region_length='1..8', blacklist='<=2')},
     outside=['BED parsing (get_bins_from_bed_dict)', 'regions longer than 8 / more than 2 blacklist intervals', 'more_itertools.windowed (third party, executed symbolically as is)'],
